@@ -107,7 +107,7 @@ func getopt(name string) op {
 }
 
 var ops = []op{
-	{name: "Send", run: func(w *world) error { w.n++; return w.x.Send(fmt.Sprintf("m%d", w.n)) }, ok: func(w *world) bool { return w.k.CanSend && !w.k.NeedReq }},
+	{name: "Send", run: func(w *world) error { w.n++; return w.x.Send(fmt.Sprintf("m%d", w.n)) }, ok: func(w *world) bool { return w.k.CanSend }},
 	{name: "Recv", run: func(w *world) error { _, err := w.x.Recv(); return err }, ok: func(w *world) bool { return w.k.CanRecv }},
 	{name: "peer-delivers", run: func(w *world) error { w.x.Feed("from-peer-a"); w.x.Feed("from-peer-b"); return nil }, ok: func(w *world) bool { return w.k.CanRecv }},
 	{name: "peer-drops", mutator: true, run: func(w *world) error { w.x.P.DropNow(); return nil }},
@@ -126,7 +126,7 @@ var ops = []op{
 	getopt(mangos.OptionRecvDeadline),
 	getopt(mangos.OptionBestEffort),
 	{name: "OpenContext", mutator: true, run: func(w *world) error { c, err := w.x.S.OpenContext(); _ = c; return err }},
-	{name: "ctx.Send", run: func(w *world) error { return w.ctx.Send([]byte("ctx-m")) }, ok: func(w *world) bool { return w.ctx != nil && w.k.CanSend && !w.k.NeedReq }},
+	{name: "ctx.Send", run: func(w *world) error { return w.ctx.Send([]byte("ctx-m")) }, ok: func(w *world) bool { return w.ctx != nil && w.k.CanSend }},
 	{name: "ctx.Recv", run: func(w *world) error { _, err := w.ctx.Recv(); return err }, ok: func(w *world) bool { return w.ctx != nil && w.k.CanRecv }},
 	{name: "ctx.Close", mutator: true, run: func(w *world) error { return w.ctx.Close() }, ok: func(w *world) bool { return w.ctx != nil }},
 	{name: "Pipe.Close", mutator: true, run: func(w *world) error { return w.pipe.Close() }, ok: func(w *world) bool { return w.pipe != nil }},
@@ -350,6 +350,7 @@ func twoThreads(k *kinds.Kind, full bool) {
 			}
 		case mangos.PipeEventDetached:
 			w.detached++
+			_ = p.Close() // closing a pipe again from its Detached callback is legal (Close is idempotent)
 		}
 	}
 	s.SetPipeEventHook(w.hook)
@@ -369,6 +370,24 @@ func twoThreads(k *kinds.Kind, full bool) {
 		_ = w.ctx.SetOption(mangos.OptionSendDeadline, time.Second)
 	}
 	w.x.PrepRecv()
+	if k.NeedReq {
+		// a server-style pattern answers: a request has been received on the socket and on the
+		// context, so that Send is a legal call for both threads
+		if w.x.Feed("request-for-the-socket") {
+			c := kit.Start("prep-recv", func() (interface{}, error) { return w.x.Recv() })
+			kit.Quiesce()
+			if !c.Done() || c.Err != nil {
+				kit.Failf("setup", "%s: preparatory Recv: done=%v %s", k.Name, c.Done(), kit.ErrName(c.Err))
+			}
+		}
+		if w.ctx != nil && w.x.Feed("request-for-the-context") {
+			c := kit.Start("prep-ctx-recv", func() (interface{}, error) { b, err := w.ctx.Recv(); return string(b), err })
+			kit.Quiesce()
+			if !c.Done() || c.Err != nil {
+				kit.Failf("setup", "%s: preparatory ctx.Recv: done=%v %s", k.Name, c.Done(), kit.ErrName(c.Err))
+			}
+		}
+	}
 	// choose the program
 	var cand []int
 	for i, o := range ops {
@@ -382,7 +401,11 @@ func twoThreads(k *kinds.Kind, full bool) {
 		if i < a {
 			continue
 		}
-		if !full && !ops[a].mutator && !ops[i].mutator {
+		mut := func(o op) bool {
+			// (for the server-style patterns a Send consumes the pending request: it changes state)
+			return o.mutator || (k.NeedReq && (o.name == "Send" || o.name == "ctx.Send"))
+		}
+		if !full && !mut(ops[a]) && !mut(ops[i]) {
 			continue // quick tier: at least one of the two calls changes state
 		}
 		second = append(second, i)
